@@ -11,7 +11,7 @@ pub static DEF: PropDef = PropDef {
     id: "C11",
     level: "exploration",
     rule: "cases: files F from the container generator (with and without embedded streams, intact and damaged) x \
-capacity in {0, 1, |E|-1, |E|, |E|+1, |E|+k, 64 MiB, and the offsets of the last 6 chunk boundaries of E (+1 / -1)} where E = expand_zlib_chunks(F); and non-frames: empty input, 1-3 \
+capacity in {0, 1, |E|-1, |E|, |E|+1, |E|+k, 64 MiB, and the offsets of the last 6 chunk boundaries of E (+1 / -1)} where E = expand_zlib_chunks(F); plus a deterministic sweep of files whose expanded form has 2^k, 2^k+-1 (k=12..18; ..20 thorough) or 2/3/5 x 2^17 (+-1) bytes; and non-frames: empty input, 1-3 \
 bytes, random bytes that start with neither a zstd nor a skippable-frame magic, strict prefixes of a valid frame, a \
 valid frame followed by trailing non-frame bytes. Oracle: capacity >= |E| => decompress_zstd(compress_zstd(F), capacity) \
 == Ok(F); capacity < |E| => Err; non-frame => Err; never a panic; never Ok(x) with x != F for an untouched frame. \
@@ -199,7 +199,80 @@ fn eval_dna(dna_bytes: &[u8], ctx: &mut Ctx) -> Result<(), (Failure, Value)> {
     r.map_err(|f| (f, doc))
 }
 
+/// pad `file` with trailing junk until its expanded form has exactly `target` bytes
+fn pad_to_expanded_size(mut file: Vec<u8>, target: usize) -> Option<Vec<u8>> {
+    let mut m = Mix::new(target as u64 ^ 0xE5);
+    for _ in 0..6 {
+        let e = match lib_expand(&file) {
+            Ok(Ok(e)) => e.len(),
+            _ => return None,
+        };
+        if e == target {
+            return Some(file);
+        }
+        if e < target {
+            let add = target - e;
+            file.extend((0..add).map(|_| crate::gen_file::safe_junk_byte(&mut m)));
+        } else {
+            let cut = e - target;
+            if cut >= file.len() {
+                return None;
+            }
+            file.truncate(file.len() - cut);
+        }
+    }
+    None
+}
+
+/// deterministic sweep: files whose EXPANDED form has a size of 2^k, 2^k +- 1 or a small multiple
+/// of 2^17 (buffer-size boundaries of streaming decoders), with and without an embedded stream
+fn size_sweep(ctx: &mut Ctx) {
+    let mut targets: Vec<usize> = vec![];
+    for k in 12..=20 {
+        for d in [-1i64, 0, 1] {
+            targets.push(((1i64 << k) + d) as usize);
+        }
+    }
+    for mult in [2usize, 3, 5] {
+        for d in [-1i64, 0, 1] {
+            targets.push((mult as i64 * 131072 + d) as usize);
+        }
+    }
+    let max = if ctx.cfg.tier == Tier::Quick { 300_000 } else { usize::MAX };
+    for (i, &t) in targets.iter().enumerate() {
+        if t > max || (i as u32) % ctx.cfg.nshards != ctx.cfg.shard {
+            continue;
+        }
+        for with_stream in [false, true] {
+            let base: Vec<u8> = if with_stream {
+                let dna_bytes: Vec<u8> = (0..300u32).map(|x| (x.wrapping_mul(131).wrapping_add(t as u32 * 7) >> 3) as u8).collect();
+                let mut d = Dna::new(&dna_bytes);
+                let plain = crate::gen_plain::gen_plain_sized(&mut d, 1500);
+                let stream = crate::gen_comp::zlib_deflate_raw(&plain, &crate::gen_comp::ZCfg::simple(6)).unwrap();
+                let mut f = vec![0x78, 0x9c];
+                f.extend_from_slice(&stream);
+                f.extend_from_slice(&crate::gen_comp::adler32(&plain).to_be_bytes());
+                f
+            } else {
+                vec![0u8; 16]
+            };
+            if let Some(f) = pad_to_expanded_size(base, t) {
+                let doc = json!({"kind":"c11-file","hex":hex(&f),"k":2});
+                ctx.set_inflight(&doc);
+                ctx.class("sweep:expanded-size-at-power-of-two");
+                if let Err(fl) = check_file(&f, 2, ctx) {
+                    if !ctx.is_known(&fl) {
+                        ctx.record_failure(&fl, &doc);
+                        return;
+                    }
+                }
+            }
+        }
+    }
+}
+
 fn worker(ctx: &mut Ctx) {
+    size_sweep(ctx);
     let cases = match ctx.cfg.tier {
         Tier::Quick => 24_000u64,
         Tier::Thorough => 400_000u64,
